@@ -656,8 +656,10 @@ EB_API EbErrorType svt_av1_dec_deinit(EbComponentType *svt_dec_component) {
         return EB_ErrorNone;
 
     // Loop through the ptr table and free all malloc'd pointers per channel
+    // (the table is empty until the first sequence header has been decoded: memory_map_init_address is
+    // only the list head, it is not an entry)
     EbMemoryMapEntry *memory_entry = svt_dec_memory_map;
-    do {
+    while (memory_entry != dec_handle_ptr->memory_map_init_address && memory_entry) {
         switch (memory_entry->ptr_type) {
         case EB_N_PTR: free(memory_entry->ptr); break;
         case EB_A_PTR:
@@ -675,7 +677,7 @@ EB_API EbErrorType svt_av1_dec_deinit(EbComponentType *svt_dec_component) {
         EbMemoryMapEntry *tmp_memory_entry = memory_entry;
         memory_entry                       = tmp_memory_entry->prev_entry;
         free(tmp_memory_entry);
-    } while (memory_entry != dec_handle_ptr->memory_map_init_address && memory_entry);
+    }
     free(dec_handle_ptr->memory_map_init_address);
     return return_error;
 }
